@@ -271,8 +271,8 @@ def r4_config_plumbing(ctx) -> None:
         if m is None:
             ctx.broken(f"anchor vanished: {cname}._pydantic_rebuild")
         cm = ctx.cfn(f"{mn}.{cname}._pydantic_rebuild")
-        env = tsubseq(cm.body, ["L_c = dict(ops_classes)", "L_c[cls.__name__] = cls", "model_rebuild(L_c, config=config, **kwargs)"]) or \
-            tsubseq(cm.body, ["L_c = dict(ops_classes)", "L_c[cls.__name__] = cls", "model_rebuild(L_c, config=config or ConfigDict(), **kwargs)"])
+        # canonical body: the copied map with the root class added is one display, the defaulted config is written where it is read
+        env = thas(cm, "model_rebuild({**dict(ops_classes), cls.__name__: cls}, config=config or ConfigDict(), **kwargs)") or None
         ctx.check(env is not None, "C17.R2", f"{cname}._pydantic_rebuild: root class receives the configuration", c.module.path, m.lineno,
                   f"{cname}._pydantic_rebuild must rebuild the op/type classes AND {cname} itself with the given config (my_classes[cls.__name__] = cls; "
                   "model_rebuild(my_classes, config=config, **kwargs)): otherwise the root model keeps the default `extra` while the published schema says "
@@ -282,12 +282,15 @@ def r4_config_plumbing(ctx) -> None:
     mr = tys.functions.get("model_rebuild")
     if mr is None:
         ctx.broken("anchor vanished: hugr._serialization.tys.model_rebuild")
+    mr_o = mr
+    mr = ctx.cfn("hugr._serialization.tys.model_rebuild")      # canonical: a loop over a filtering generator is the filtered loop
     loops = [n for n in ast.walk(mr) if isinstance(n, ast.For)]
-    ok = len(loops) == 1 and u(loops[0].iter) == "classes.values()"
+    ok = len(loops) >= 1 and u(loops[0].iter) == "classes.values()"
     if ok:
         lp = loops[0]
         v = u(lp.target)
-        ok = tseq(lp.body, [f"if issubclass({v}, ConfiguredBaseModel):\n    {v}.update_model_config(config)\n    {v}.model_rebuild(**kwargs)"]) is not None
+        ok = any(tseq(lp.body, [f"if issubclass({v}, ConfiguredBaseModel):\n    {v}.update_model_config({cfg})\n    {v}.model_rebuild(**kwargs)"]) is not None
+                 for cfg in ("config", "config or ConfigDict()"))
     ctx.check(ok, "C17.R2", "tys.model_rebuild: every configured class is updated and rebuilt", tys.path, mr.lineno,
               "model_rebuild must apply the config to every ConfiguredBaseModel subclass in the map and rebuild it", mr)
     # the models that embed configured classes -- the RootModel unions OpType, Type, TypeArg, .. that sit between the root
@@ -321,8 +324,12 @@ def r4_config_plumbing(ctx) -> None:
     ops = prog.module("hugr._serialization.ops")
     for mod, want_plus in ((tys, False), (ops, True)):
         v = mod.assigns.get("classes")
-        src = u(v) if v is not None else ""
-        ok = "inspect.getmembers(sys.modules[__name__], lambda member: inspect.isclass(member) and member.__module__ == __name__)" in src and (("+ tys_classes" in src) == want_plus)
+        try:
+            src = u(ctx.canon.module_expr(mod, v)) if v is not None else ""
+        except Exception:
+            src = ""
+        members = "[(c0, c1) for c0, c1 in inspect.getmembers(sys.modules[__name__]) if inspect.isclass(c1) if c1.__module__ == __name__]"
+        ok = src == (members + " + tys_classes" if want_plus else members)
         ctx.check(ok, "C17.R2", f"{mod.name}.classes", mod.path, getattr(v, "lineno", 1),
                   "the class list handed to model_rebuild must be all classes defined in this module" + (" plus those of tys" if want_plus else ""), v)
 
